@@ -299,8 +299,45 @@ func c15Prop(st *CaseStats) func(t *rapid.T) {
 							return err
 						}
 						if o, ok := it.(segment.OptimizablePostingsIterator); ok {
-							if abm := o.ActualBitmap(); abm != nil {
-								_ = abm.GetCardinality()
+							if abm := o.ActualBitmap(); abm != nil && !abm.IsEmpty() {
+								// the bitmap an iterator hands out used as the exclusion of the next lookup, whose
+								// iterator reuses that very iterator: the handed-out bitmap is the caller's deletion
+								// bitmap now and must come back unchanged
+								before := abm.Clone()
+								pl2, err := d.PostingsList([]byte(tm), abm, nil)
+								if err != nil {
+									return err
+								}
+								it2, err := pl2.Iterator(true, true, true, it)
+								if err != nil {
+									return err
+								}
+								n2 := 0
+								for {
+									p, err := it2.Next()
+									if err != nil {
+										return err
+									}
+									if p == nil {
+										break
+									}
+									if before.Contains(uint32(p.Number())) {
+										return fmt.Errorf("term %q: excluded document %d delivered (exclusion = a bitmap handed out by ActualBitmap())", tm, p.Number())
+									}
+									n2++
+								}
+								if !abm.Equals(before) {
+									return fmt.Errorf("term %q: the bitmap handed out by ActualBitmap(), used as exclusion bitmap while its iterator was reused, changed from %s to %s", tm, bmString(before), bmString(abm))
+								}
+								wantN := 0
+								for _, p := range c.Exp.Post[f][tm] {
+									if !before.Contains(uint32(p.Doc)) {
+										wantN++
+									}
+								}
+								if n2 != wantN {
+									return fmt.Errorf("term %q: %d postings with the handed-out bitmap as exclusion, expected %d", tm, n2, wantN)
+								}
 							}
 						}
 					}
